@@ -36,6 +36,9 @@ const PROGS: &[(&str, Option<&str>)] = &[
     ("let q = 1; q;", Some("1")),
 ];
 
+/// program texts that start with '-' (text, what -c echoes)
+const DASH_TEXTS: &[(&str, &str)] = &[("-1 + 2", "1\n"), ("-puts(3)", ""), ("--1", "1\n"), ("-(2) * 3;", "-6\n"), ("- 1; println(\"x\"); null", "")];
+
 fn argvs() -> Vec<Vec<String>> {
     let s = |v: &[&str]| v.iter().map(|x| x.to_string()).collect::<Vec<_>>();
     vec![
@@ -107,9 +110,12 @@ impl Property for P24 {
         "C24"
     }
     fn len(&self) -> u64 {
-        (PROGS.len() * self.n_argv) as u64 + 1
+        (PROGS.len() * self.n_argv) as u64 + 1 + DASH_TEXTS.len() as u64
     }
     fn describe(&self, idx: u64) -> Value {
+        if idx as usize > PROGS.len() * self.n_argv {
+            return json!({"program text starting with '-', as a file and with -c": DASH_TEXTS[idx as usize - PROGS.len() * self.n_argv - 1]});
+        }
         if idx as usize == PROGS.len() * self.n_argv {
             return json!({"REPL": "argv; len(argv)"});
         }
@@ -117,6 +123,24 @@ impl Property for P24 {
         json!({"program": PROGS[p].0, "arguments": argvs()[a], "modes": MODES})
     }
     fn run(&self, idx: u64) -> CaseOut {
+        if idx as usize > PROGS.len() * self.n_argv {
+            // the whole program text begins with '-': the command-line parser must not take it for an option
+            let (text, echo) = DASH_TEXTS[idx as usize - PROGS.len() * self.n_argv - 1];
+            let dir = scratch_dir("c24");
+            let path = dir.join(format!("d{}.p2", idx));
+            std::fs::write(&path, text).unwrap();
+            let f = run_bin(&[path.to_str().unwrap()], b"", &[], 20);
+            let c = run_bin(&["-c", text], b"", &[], 20);
+            let _ = std::fs::remove_file(&path);
+            if f.crashed() || c.crashed() {
+                return CaseOut::viol("crash dash-text", format!("crash on the program text {:?}", text));
+            }
+            let want = format!("{}{}", f.out_s(), echo);
+            if c.out_s() != want || c.err_s() != f.err_s() || c.status != f.status {
+                return CaseOut::viol("-c text starting with '-'", format!("the program text {:?}: file mode prints {:?} / {:?} (status {:?}); -c prints {:?} / {:?} (status {:?}), expected stdout {:?}", text, one_line(&f.out_s(), 100), one_line(&f.err_s(), 100), f.status, one_line(&c.out_s(), 100), one_line(&c.err_s(), 200), c.status, want));
+            }
+            return CaseOut::pass("dash-text");
+        }
         if idx as usize == PROGS.len() * self.n_argv {
             let o = run_bin(&[], b"println(\"{}\", len(argv));\nargv\n", &[("P2SH_VERIF_REPL_STDIN", "1")], 20);
             let out = o.out_s();
@@ -227,7 +251,7 @@ impl Property for P24 {
         CaseOut::pass(class).with_counts(4, 4, 4)
     }
     fn rule(&self) -> String {
-        format!("{} programs (printing, final expression statement null / non-null of every value kind incl. falsey ones, final let / fn / loop statement, runtime error after output, parse error, compile error, exit(3), stderr output, multi-line) each preceded by an argv dump x {} argument vectors {:?} x 4 invocation modes {:?} through the binary, plus the REPL. Oracle: script mode argv = [path] + arguments (the first -- only separates); a script with a #! first line (run as an argument and executed directly) gives the same stdout, stderr (line numbers + 1) and exit status; -c gives argv = the positional arguments, the same stdout followed by the display text of the final expression statement's value when the program ends with an expression statement that was reached and whose value is not null, and the same stderr and status; in the REPL argv is empty", PROGS.len(), argvs().len(), argvs().iter().map(|v| if v.len() > 5 { vec!["<40 arguments>".to_string()] } else { v.clone() }).collect::<Vec<_>>(), MODES)
+        format!("{} programs (printing, final expression statement null / non-null of every value kind incl. falsey ones, final let / fn / loop statement, runtime error after output, parse error, compile error, exit(3), stderr output, multi-line) each preceded by an argv dump x {} argument vectors {:?} x 4 invocation modes {:?} through the binary, plus the REPL. Oracle: script mode argv = [path] + arguments (the first -- only separates); a script with a #! first line (run as an argument and executed directly) gives the same stdout, stderr (line numbers + 1) and exit status; -c gives argv = the positional arguments, the same stdout followed by the display text of the final expression statement's value when the program ends with an expression statement that was reached and whose value is not null, and the same stderr and status; in the REPL argv is empty; program texts that begin with '-' run the same from a file and with -c", PROGS.len(), argvs().len(), argvs().iter().map(|v| if v.len() > 5 { vec!["<40 arguments>".to_string()] } else { v.clone() }).collect::<Vec<_>>(), MODES)
     }
     fn bounds(&self) -> Value {
         json!({"programs": PROGS.len(), "argument_vectors": self.n_argv, "modes": 4, "binary_runs": PROGS.len() * self.n_argv * 4 + 1})
